@@ -8,8 +8,8 @@ of the per-operation theorems of `Proofs/IovecAbs.lean`.
 import Woodpile.Model.IovecApi
 import Woodpile.Proofs.IovecAbs
 
-namespace Woodpile.Iovec
-open Woodpile.Arena
+namespace Woodpile.Iovec.Api
+open Woodpile.Iovec Woodpile.Arena
 open Woodpile.Pipe (Cell Pipe)
 
 /-! ### Caller buffers registered by `addExts` -/
@@ -97,7 +97,7 @@ theorem flat_filter_pos (w : World) (l : List Slice) : w.flat (l.filter (fun s =
 
 /-! ### `new_from_slices` (hence `from_iter`, both impls) establishes the invariant -/
 
-theorem World.iov_addIov (w : World) (v : Iov) : (w.addIov v).1.iov (w.addIov v).2 = some v := by
+theorem iov_addIov (w : World) (v : Iov) : (w.addIov v).1.iov (w.addIov v).2 = some v := by
   simp [World.addIov, World.iov, List.getD_eq_getElem?_getD]
 
 /-- `new_from_slices(slices, arena)` for borrowed in-bounds slices and a fresh-or-empty arena: the new
@@ -112,7 +112,7 @@ theorem newFromSlices_spec (w : World) (slices : List Slice) (ar : Arena)
       v.slices = slices.filter (fun s => s.len > 0) ∧
       (w.newFromSlices slices ar).1.flat v.slices = w.flat slices := by
   unfold World.newFromSlices
-  refine ⟨_, World.iov_addIov _ _, ?_, rfl, rfl, rfl, rfl, ?_⟩
+  refine ⟨_, iov_addIov _ _, ?_, rfl, rfl, rfl, rfl, ?_⟩
   · have hmem : ∀ s ∈ slices.filter (fun s => s.len > 0), s ∈ slices ∧ 0 < s.len := by
       intro s hs
       rw [List.mem_filter] at hs
@@ -171,7 +171,7 @@ theorem visible_no_backrefs (w : World) (v : Iov) (hb : v.backrefs = []) : w.vis
 
 /-! ### The pure read methods under the invariant -/
 
-theorem IovInv.stablePrefix {w : World} {v : Iov} (h : IovInv w v) :
+theorem stablePrefix_of_inv {w : World} {v : Iov} (h : IovInv w v) :
     v.stablePrefix = some (v.slices.take v.stableN) := by
   unfold Iov.stablePrefix; rw [h.stableCount]
 
@@ -185,19 +185,19 @@ theorem foldl_sliceBytes (w : World) (ss : List Slice) (dst : List UInt8) :
 theorem flattenInto_spec {w : World} {v : Iov} (h : IovInv w v) (dst : List UInt8) :
     w.flattenInto v dst = some (!v.hasPending, dst ++ w.visible v) := by
   unfold World.flattenInto World.flattenIntoImpl
-  rw [h.stablePrefix]
+  rw [stablePrefix_of_inv h]
   simp only [foldl_sliceBytes, World.visible]
 
 theorem iovs_spec {w : World} {v : Iov} (h : IovInv w v) :
     v.iovs = some (!v.hasPending, v.slices.take v.stableN) := by
-  unfold Iov.iovs; rw [h.stablePrefix]
+  unfold Iov.iovs; rw [stablePrefix_of_inv h]
 
 theorem front_spec {w : World} {v : Iov} (h : IovInv w v) :
     v.front = some ((v.slices.take v.stableN).head?) := by
-  unfold Iov.front; rw [h.stablePrefix]
+  unfold Iov.front; rw [stablePrefix_of_inv h]
 
 theorem iter_spec {w : World} {v : Iov} (h : IovInv w v) :
-    v.iter = some (v.slices.take v.stableN) := h.stablePrefix
+    v.iter = some (v.slices.take v.stableN) := stablePrefix_of_inv h
 
 /-- `front()` is `None` exactly when no byte is readable; otherwise it is a non-empty slice of the
 iovec whose bytes are a prefix of the readable bytes. -/
@@ -272,7 +272,7 @@ theorem stable_views {w : World} {v : Iov} (h : IovInv w v) (hs : v.tryStable = 
     | cons _ _ => rw [hbb] at hp; simp at hp
   have hn : v.stableN = v.slices.length := stableN_nil v hb
   unfold World.stableIovs World.stableFlatten World.stableFlattenInto World.flattenIntoImpl
-  rw [h.stablePrefix, hn, List.take_length]
+  rw [stablePrefix_of_inv h, hn, List.take_length]
   simp only [foldl_sliceBytes, List.nil_append]
   refine ⟨?_, ?_, ?_, absCells_no_backrefs w v hb⟩ <;> simp
 
@@ -291,4 +291,4 @@ theorem visible_prefix_stable (i : Nat) (s : State) (v : Iov) (hv : s.w.iov i = 
   rw [Pipe.stable_of_cells (abs i s) _ _ hcells]
   exact List.prefix_append _ _
 
-end Woodpile.Iovec
+end Woodpile.Iovec.Api
